@@ -24,6 +24,7 @@ PROP = {
         {"name": "C17m", "pkg": "./syncer/", "test": "TestVerifC17Migrate"},
         {"name": "C17gs", "pkg": "./syncer/", "test": "TestVerifC17GcSender"},
         {"name": "C17gf", "pkg": "./cmd/", "test": "TestVerifC17GcFrame"},
+        {"name": "C17st", "pkg": "./syncer/", "test": "TestVerifC17Start"},
     ],
     "driver": "drv_C17",
     "rule": "c17u (UpdateCheckpoint): corpus (D13 witnesses); generated bookkeeping states on the target double: nothing stored / rename / "
